@@ -1,7 +1,10 @@
 /* C05.K3 — n-bit coder (real cnbit.c #included) over a bit-queue model of
  * Hbitwrite/Hbitread/Hbitseek (the real hbitio.c is decided separately in K4).
- * Build parameter NTSZ in {1,2,4}.  Symbolic: start bit, bit length, sign
- * extension, fill-with-ones, two values (all bit patterns), seek target.
+ * Build parameters NTSZ in {1,2,4}, START_BIT, PART.  Symbolic: three values (all bit
+ * patterns); bit length, sign extension and fill are looped.  The values are written as
+ * [1 value][2 values] and read back in the partition selected by PART
+ * (0: one call, 1: [1][2] — a growing request, 2: [2][1]), then the second value is
+ * re-read after a seek.
  * Oracle: independently written projection (keep field, fill the rest,
  * sign-extend above the field). */
 #define union struct
@@ -35,7 +38,10 @@ int   Hbitappendable(int32 b) { (void)b; return SUCCEED; }
 int32 Hendbitaccess(int32 b, int fl) { (void)b; (void)fl; return SUCCEED; }
 #include "cnbit.c"
 
-#define NV 2
+#define NV 3
+#ifndef PART
+#define PART 1
+#endif
 H4V_IN_ARR(uint8_t, val, NV * NTSZ);
 H4V_IN(uint8_t, start_bit);
 H4V_IN(uint8_t, bit_len);
@@ -75,12 +81,20 @@ static void one(int sb, int bl, int se, int fo)
     H4V_ASSERT(HCPcnbit_write(&AR, (NV - 1) * NTSZ, val + NTSZ) == (NV - 1) * NTSZ, "C05.K3.write2");
     H4V_ASSERT(Qw == NV * bl, "C05.K3.size: stored bits differ from values x bit length");
     H4V_ASSERT(HCIcnbit_init(&AR) == SUCCEED, "C05.K3.init2");
+#if PART == 0
     H4V_ASSERT(HCPcnbit_read(&AR, NV * NTSZ, out) == NV * NTSZ, "C05.K3.read");
+#elif PART == 1
+    H4V_ASSERT(HCPcnbit_read(&AR, NTSZ, out) == NTSZ, "C05.K3.read.a");
+    H4V_ASSERT(HCPcnbit_read(&AR, (NV - 1) * NTSZ, out + NTSZ) == (NV - 1) * NTSZ, "C05.K3.read.b");
+#else
+    H4V_ASSERT(HCPcnbit_read(&AR, (NV - 1) * NTSZ, out) == (NV - 1) * NTSZ, "C05.K3.read.a");
+    H4V_ASSERT(HCPcnbit_read(&AR, NTSZ, out + (NV - 1) * NTSZ) == NTSZ, "C05.K3.read.b");
+#endif
     for (e = 0; e < NV; e++) {
         x = 0; got = 0;
         for (i = 0; i < NTSZ; i++) { x = (x << 8) | val[e * NTSZ + i]; got = (got << 8) | out[e * NTSZ + i]; }
         want = project(x, bits, sb, bl, se, fo);
-        H4V_ASSERT(got == want, "C05.K3.project: decoded value is not the documented projection of the value written");
+        H4V_ASSERT(got == want, "C05.K3.project: decoded value is not the documented projection of the value written (any partition into whole-value reads)");
     }
     /* seek to the second value and re-read it */
     H4V_ASSERT(HCPcnbit_seek(&AR, NTSZ, DF_START) == SUCCEED, "C05.K3.seek");
